@@ -11,6 +11,7 @@ R4 comparator decision table (_mtbl_merger_compare) and heap comparison sites.
 R5 without a merge function exactly one entry is taken per call.
 R6 observation paths (mtbl_source_write, mtbl_merge's merge()) add every yielded entry and
    stop at the first refused add.
+R9 closure pairing (rules/closures.py): merge, dupsort and the heap comparison are each called with the closure registered with them.
 """
 import re
 from .common import *
@@ -386,3 +387,8 @@ def run(ctx, res):
                               "add after exhaustion", f.loc(e.node))
         if seen == 0:
             raise BrokenAnalysis("%s: no yield->add step recognised" % f.name)
+
+    # ---- closure pairing ----------------------------------------------------------------------
+    from . import closures
+    res.floor("C04.R9", 1)
+    closures.check(ctx, res, "C04.R9", ('mtbl_merger_options', 'heap'))
